@@ -24,6 +24,8 @@ def main():
         print("==", key, {k: meta[k] for k in ("paths", "seconds", "error") if k in meta})
         for r in res:
             print("  ", r.status, r.clause, "|", r.path[-80:], r.seconds, r.reason[:200] if r.status != "proved" else "")
+            if r.info.get("failing_conjuncts"):
+                for fc in r.info["failing_conjuncts"]: print("      failing:", fc.replace("\n"," "))
             if r.status == "refuted":
                 print("      model:", {k: v for k, v in (r.model or {}).items() if not k.startswith("H0")})
 main()
